@@ -1,33 +1,23 @@
 package main
 
 import (
-	"encoding/json"
 	"fmt"
 	"os"
-	"strconv"
+	"strings"
 
 	"verif/sim/core"
-	"verif/sim/props/c14"
+	"verif/sim/props/c07"
 )
 
 func main() {
-	p := c14.Prop{}
-	var c interface{}
-	var focus *core.Violation
-	if n, err := strconv.ParseInt(os.Args[1], 10, 64); err == nil {
-		c = p.Gen(core.NewRand(n), "quick")
-	} else {
-		rp, err := core.ReadReplay(os.Args[1])
-		if err != nil {
-			panic(err)
-		}
-		c, _ = p.Decode(rp.Case)
-		focus = &rp.Violation
+	p := c07.Prop{}
+	rp, err := core.ReadReplay(os.Args[1])
+	if err != nil {
+		panic(err)
 	}
-	b, _ := json.Marshal(c)
-	fmt.Println("CASE", string(b))
-	c14.Debug = true
-	o := p.Run(c, focus)
-	b, _ = json.MarshalIndent(o.Violation, "", " ")
-	fmt.Println(o.Trouble, string(b))
+	c, _ := p.Decode(rp.Case)
+	o := p.Run(c, nil)
+	fmt.Println(o.Trouble, o.Violation)
+	s := fmt.Sprint(o.Sample)
+	fmt.Println(len(s), strings.Count(fmt.Sprint(o.Counters), "valuepool"), o.Counters)
 }
